@@ -327,6 +327,12 @@ impl Property for Prop {
                 } else {
                     gen_user_ptype(&mut rng)
                 };
+                // a type below 0x0100 equal to the id of a mandatory LAST extension is the legal final case
+                let chain = chain.normalised(ptype);
+                let final_ext = chain.final_ext;
+                if !legal && final_ext && chain.entries.last().map(|e| e.id) == Some(ptype) {
+                    legal = true;
+                }
                 if !legal && final_ext && ptype >= 0x600 {
                     // a chain whose last element the receiver's table calls final while the sender's type is >= 0x0600:
                     // a configuration mismatch, not judged (DESIGN §5 C13)
